@@ -302,8 +302,8 @@ CLAIMS = {
     },
     "C02": {
         "text": "compile_correct / program_correct (DS/Props/C02.lean, from run_compile in DS/Proofs/FragCompile.lean and run_stmts in "
-                "DS/Proofs/FragStmts.lean): for EVERY source tree of the fragment {numbers, all 15 binary operators, unary minus, the "
-                "ternary, ||, &&, variable references, assignments (as expressions), statement sequences s1; ...; sn} the code the "
+                "DS/Proofs/FragStmts.lean): for EVERY source tree of the fragment {integer / float / string literals, null, all 15 binary "
+                "operators, unary minus and plus, the ternary, ||, &&, variable references, assignments (as expressions), statement sequences s1; ...; sn} the code the "
                 "compiler emits, run by the VM model's dispatch loop, ends with exactly the value (of the last statement) — or exactly "
                 "the first error — and the heap (which holds the variables) that the definitional, syntax-directed semantics evalF / "
                 "evalS prescribes; a name is in the fragment when the context's own table binds it to a plain value (unbound names — "
